@@ -12,6 +12,10 @@ pub unsafe trait IndexType: Copy + Default + Hash + Ord + fmt::Debug + 'static {
     /// distinct values represent distinct indices
     proof fn ix_inj(a: Self, b: Self)
         ensures a.ix() == b.ix() ==> a == b;
+    /// `Ord` on the index type is the order of the represented indices
+    proof fn ord_law()
+        ensures Self::obeys_cmp_spec(),
+                forall|a: Self, b: Self| (#[trigger] a.cmp_spec(&b)) == (if a.ix() < b.ix() { Ordering::Less } else if a.ix() == b.ix() { Ordering::Equal } else { Ordering::Greater });
     /*-*/
     fn new(x: usize) -> (r: Self)
         /*+*/ensures x <= Self::spec_max() ==> r.ix() == x /*-*/;
@@ -29,6 +33,7 @@ unsafe impl IndexType for usize {
     open spec fn spec_max() -> usize { usize::MAX }
     proof fn eq_law() {}
     proof fn ix_inj(a: Self, b: Self) {}
+    proof fn ord_law() {}
     /*-*/
     #[inline(always)]
     fn new(x: usize) -> Self {
@@ -52,6 +57,7 @@ unsafe impl IndexType for u32 {
     open spec fn spec_max() -> usize { u32::MAX as usize }
     proof fn eq_law() {}
     proof fn ix_inj(a: Self, b: Self) {}
+    proof fn ord_law() {}
     /*-*/
     #[inline(always)]
     fn new(x: usize) -> Self {
@@ -75,6 +81,7 @@ unsafe impl IndexType for u16 {
     open spec fn spec_max() -> usize { u16::MAX as usize }
     proof fn eq_law() {}
     proof fn ix_inj(a: Self, b: Self) {}
+    proof fn ord_law() {}
     /*-*/
     #[inline(always)]
     fn new(x: usize) -> Self {
@@ -98,6 +105,7 @@ unsafe impl IndexType for u8 {
     open spec fn spec_max() -> usize { u8::MAX as usize }
     proof fn eq_law() {}
     proof fn ix_inj(a: Self, b: Self) {}
+    proof fn ord_law() {}
     /*-*/
     #[inline(always)]
     fn new(x: usize) -> Self {
